@@ -15,10 +15,8 @@ static void t_copy(bool move, BP s, size_t n, int ms, int md)
     setN(n);
     K.cls = n == 0 ? "n0" : "";
     snprintf(K.extra, sizeof K.extra, "(src %d, dst %d bytes from the guard)", ms, md);
-    uint8_t junk[96];
-    memset(junk, 0xEE, sizeof junk);
     uint8_t *si = I[0].put(s, n, PL, ms), *sr = R[0].put(s, n, PL, ms);
-    uint8_t *di = I[1].put(junk, n, PL, md), *dr = R[1].put(junk, n, PL, md);
+    uint8_t *di = I[1].put(nullptr, n, PL, md), *dr = R[1].put(nullptr, n, PL, md);
     void *ri = nullptr, *rr = move ? memmove(dr, sr, n) : memcpy(dr, sr, n);
     CALL(ri = move ? igc_memmove(di, si, n) : igc_memcpy(di, si, n));
     if (off(ri, di) != off(rr, dr))
@@ -54,9 +52,7 @@ static void t_set(size_t n, int c, int mis)
     setC(c);
     K.cls = n == 0 ? "n0" : ccls(c);
     snprintf(K.extra, sizeof K.extra, "(dst %d bytes from the guard)", mis);
-    uint8_t junk[96];
-    memset(junk, 0xEE, sizeof junk);
-    uint8_t *di = I[1].put(junk, n, PL, mis), *dr = R[1].put(junk, n, PL, mis);
+    uint8_t *di = I[1].put(nullptr, n, PL, mis), *dr = R[1].put(nullptr, n, PL, mis);
     void *ri = nullptr, *rr = memset(dr, c, n);
     CALL(ri = igc_memset(di, c, n));
     if (off(ri, di) != off(rr, dr))
